@@ -55,6 +55,15 @@ func bigOf(s string) *big.Int {
 	return v
 }
 
+// valOf parses a payload amount; negative amounts cannot be RLP-encoded and are clamped to 0 (PreCheck then refuses them).
+func valOf(s string) *big.Int {
+	v := bigOf(s)
+	if v.Sign() < 0 {
+		return new(big.Int)
+	}
+	return v
+}
+
 func youN(n int64) *big.Int { return new(big.Int).Mul(big.NewInt(n), you) }
 
 // contracts (pre-allocated code):
@@ -323,7 +332,7 @@ func (w *world) makeTx(o op, nonces map[common.Address]uint64) (*builtTx, error)
 	}
 	value := new(big.Int)
 	if v, ok := o.mods["v"]; ok {
-		value = bigOf(v)
+		value = valOf(v)
 	}
 	var to common.Address
 	var data []byte
@@ -337,7 +346,7 @@ func (w *world) makeTx(o op, nonces map[common.Address]uint64) (*builtTx, error)
 		if err != nil {
 			return nil, err
 		}
-		to, value, gas = a, bigOf(o.f[2]), 21000
+		to, value, gas = a, valOf(o.f[2]), 21000
 	case "K":
 		c, _ := strconv.Atoi(o.f[1])
 		if c < 0 || c >= len(contractCode) {
@@ -351,26 +360,26 @@ func (w *world) makeTx(o op, nonces map[common.Address]uint64) (*builtTx, error)
 			}
 			data = d
 		}
-		value, gas = bigOf(o.f[3]), 100000
+		value, gas = valOf(o.f[3]), 100000
 	case "VC":
 		vk := chainkit.Key("val", o.valKey())
 		role, _ := strconv.Atoi(o.f[2])
 		t := &staking.TxCreateValidator{Name: "v", OperatorAddress: from, Coinbase: chainkit.Addr(chainkit.Key("cb", o.valKey())),
-			MainPubKey: (chainkit.ValSpec{Main: vk}).MainPub(), BlsPubKey: blsPub(o.valKey()), Value: bigOf(o.f[3]), Nonce: nonce,
+			MainPubKey: (chainkit.ValSpec{Main: vk}).MainPub(), BlsPubKey: blsPub(o.valKey()), Value: valOf(o.f[3]), Nonce: nonce,
 			CommissionRate: u16(o.f[4]), RiskObligation: u16(o.f[5]), AcceptDelegation: u16(o.f[6]), Role: params.ValidatorRole(role)}
 		to, data = sm, encStaking(staking.ValidatorCreate, t)
 	case "VU":
 		t := &staking.TxUpdateValidator{Nonce: nonce, MainAddress: mainOf(), CommissionRate: u16(o.f[2]), RiskObligation: u16(o.f[3]), AcceptDelegation: u16(o.f[4])}
 		to, data = sm, encStaking(staking.ValidatorUpdate, t)
 	case "VD":
-		t := &staking.TxValidatorDeposit{MainAddress: mainOf(), Value: bigOf(o.f[2]), Nonce: nonce}
+		t := &staking.TxValidatorDeposit{MainAddress: mainOf(), Value: valOf(o.f[2]), Nonce: nonce}
 		to, data = sm, encStaking(staking.ValidatorDeposit, t)
 	case "VW":
 		r, err := w.addrOf(o.f[2])
 		if err != nil {
 			return nil, err
 		}
-		t := &staking.TxValidatorWithdraw{MainAddress: mainOf(), Recipient: r, Value: bigOf(o.f[3]), Nonce: nonce}
+		t := &staking.TxValidatorWithdraw{MainAddress: mainOf(), Recipient: r, Value: valOf(o.f[3]), Nonce: nonce}
 		to, data = sm, encStaking(staking.ValidatorWithDraw, t)
 	case "VS":
 		s, _ := strconv.Atoi(o.f[2])
@@ -379,9 +388,9 @@ func (w *world) makeTx(o op, nonces map[common.Address]uint64) (*builtTx, error)
 	case "VT":
 		to, data = sm, encStaking(staking.ValidatorSettle, &staking.TxValidatorSettle{MainAddress: mainOf()})
 	case "DA":
-		to, data = sm, encStaking(staking.DelegationAdd, &staking.TxDelegation{Validator: mainOf(), Value: bigOf(o.f[2])})
+		to, data = sm, encStaking(staking.DelegationAdd, &staking.TxDelegation{Validator: mainOf(), Value: valOf(o.f[2])})
 	case "DS":
-		to, data = sm, encStaking(staking.DelegationSub, &staking.TxDelegation{Validator: mainOf(), Value: bigOf(o.f[2])})
+		to, data = sm, encStaking(staking.DelegationSub, &staking.TxDelegation{Validator: mainOf(), Value: valOf(o.f[2])})
 	case "DT":
 		to, data = sm, encStaking(staking.DelegationSettle, &staking.TxDelegationSettle{Validator: mainOf()})
 	case "RAW":
